@@ -82,7 +82,8 @@ theorem dbMerkle_run_tree (t : JT) (db : Db) (e : Nat) (p : Option Nat) (m : Mer
   dbMerkle_tree t db e p m d hall
 
 /-- **Job rows.** The end of a job that records provenance leaves a Job row with the job's id, the
-call hash it ended with (for a collapsed or cache-served job: the hash handed over), its cached flag;
+call hash it ended with (for a collapsed or cache-served job — also one whose *error* was served by CSE —
+the hash handed over: it shares the twin's CallNode), its cached flag;
 a row written at the start keeps parent, execution and task. -/
 theorem job_row_after_finish (db : Db) (e : Nat) (p : Option Nat) (i : Info) (l s : Bool) (kids : List JT)
     (hp : i.prov = true) (hf : i.fin = .ok ∨ i.fin = .fail ∨ ∃ h, i.fin = .hit h) :
